@@ -152,10 +152,7 @@ func (c *control) readDir() {
 			expectParam = false
 		case 'v', 'V':
 			var p any
-			if 0 <= c.argPos {
-				p = c.args[c.argPos]
-				c.argPos++
-			}
+			p = c.nextArg()
 			params = append(params, p)
 			expectParam = false
 		case '\'':
@@ -313,20 +310,28 @@ func (c *control) dirNewline(colon, at bool, params []any) {
 	}
 }
 
+// nextArg returns the next argument and steps over it. An error is signalled
+// when no argument is left.
+func (c *control) nextArg() (arg slip.Object) {
+	if c.argPos < 0 || len(c.args) <= c.argPos {
+		slip.ErrorPanic(c.scope, 0, "missing argument for the directive at %d of %q", c.pos, c.str)
+	}
+	arg = c.args[c.argPos]
+	c.argPos++
+
+	return
+}
+
 func (c *control) dirMoney(colon, at bool, params []any) {
 	d := c.getIntParam(0, params, 2, true)
 	n := c.getIntParam(1, params, 1, true)
 	w := c.getIntParam(2, params, 0, true)
 	padchar := c.getCharParam(3, params, []byte{' '})
 	var val float64
-	if 0 <= c.argPos {
-		arg := c.args[c.argPos]
-		c.argPos++
-		if r, ok := arg.(slip.Real); ok {
-			val = r.RealValue()
-		} else {
-			slip.ErrorPanic(c.scope, 0, "expected a real argument for directive at %d of %q", c.pos, c.str)
-		}
+	if r, ok := c.nextArg().(slip.Real); ok {
+		val = r.RealValue()
+	} else {
+		slip.ErrorPanic(c.scope, 0, "expected a real argument for directive at %d of %q", c.pos, c.str)
 	}
 	if colon {
 		if val < 0.0 {
@@ -560,10 +565,7 @@ func (c *control) dirCall(colon, at bool, params []any) {
 	fi := slip.MustFindFunc(string(name)) // panics if not found
 	args := make(slip.List, 4)
 	args[0] = &slip.OutputStream{Writer: c}
-	if 0 <= c.argPos {
-		args[1] = c.args[c.argPos]
-		c.argPos++
-	}
+	args[1] = c.nextArg()
 	if colon {
 		args[2] = slip.True
 	}
@@ -802,10 +804,7 @@ func (c *control) dirA(colon, at bool, params []any) {
 	p.Readably = false
 	if !colon && !at && len(params) == 0 { // bare ~A, the most common case
 		var arg slip.Object
-		if 0 <= c.argPos {
-			arg = c.args[c.argPos]
-			c.argPos++
-		}
+		arg = c.nextArg()
 		if ss, ok := arg.(slip.String); ok {
 			c.out = append(c.out, ss...)
 		} else if sa, ok := arg.(slip.ScopedAppender); ok {
@@ -827,10 +826,7 @@ func (c *control) dirC(colon, at bool, params []any) {
 		arg slip.Character
 		ok  bool
 	)
-	if 0 <= c.argPos {
-		arg, ok = c.args[c.argPos].(slip.Character)
-		c.argPos++
-	}
+	arg, ok = c.nextArg().(slip.Character)
 	if !ok {
 		slip.ErrorPanic(c.scope, 0, "character directive expected a character argument at %d of %q", c.pos, c.str)
 	}
@@ -859,10 +855,7 @@ func (c *control) dirInt(colon, at bool, params []any, base int) {
 		out []byte
 		neg bool
 	)
-	if 0 <= c.argPos {
-		arg = c.args[c.argPos]
-		c.argPos++
-	}
+	arg = c.nextArg()
 	mincol := 0
 	padchar := []byte{' '}
 	commachar := []byte{','}
@@ -928,10 +921,7 @@ func (c *control) dirInt(colon, at bool, params []any, base int) {
 
 func (c *control) getEFGarg(ff *floatFormatter) {
 	var arg slip.Object
-	if 0 <= c.argPos {
-		arg = c.args[c.argPos]
-		c.argPos++
-	}
+	arg = c.nextArg()
 	// golang big.Float fails to preserve digits when printing. The last few
 	// become noise even with a very high precision so no attempt is made to
 	// support long-float other that as a double-float.
@@ -1336,10 +1326,7 @@ func (c *control) dirAS(colon, at bool, params []any, p *slip.Printer) {
 		out []byte
 		pad []byte
 	)
-	if 0 <= c.argPos {
-		arg = c.args[c.argPos]
-		c.argPos++
-	}
+	arg = c.nextArg()
 	switch ta := arg.(type) {
 	case nil:
 		if colon {
@@ -1431,10 +1418,7 @@ func (c *control) dirT(colon, at bool, params []any) {
 
 func (c *control) dirW(colon, at bool, params []any) {
 	var arg slip.Object
-	if 0 <= c.argPos {
-		arg = c.args[c.argPos]
-		c.argPos++
-	}
+	arg = c.nextArg()
 	p := *slip.DefaultPrinter()
 	p.ScopedUpdate(c.scope)
 	if colon {
